@@ -1,4 +1,5 @@
 import TexcraftModel.Lemmas.C16
+import TexcraftModel.Lemmas.C16Seq
 
 /-!
 # C16 — property theorems
@@ -10,6 +11,10 @@ Only the statements that *are* the property live here (helper lemmas: `Lemmas/C1
 * `de_progress`, `deserialize_total`  arbitrary bytes: ops or one of the two documented errors;
                       every step consumes at least one byte, so the iterator terminates
 * `var_remove_positions`, `var_remove_no_vars`, `var_remove_others`  the w/x/y/z rewrite
+* `de_returns_values`, `ser_minimal_width`  arbitrary bytes: what is read is a value of the Rust
+                      types, and the writer never uses more bytes than the reader consumed
+* `normalize_bytes`, `normalize_idempotent`  the whole `dvitools normalize` pipeline
+                      (bytes → ops → `VarRemover` → bytes) read back again
 -/
 namespace C16
 
@@ -326,6 +331,46 @@ theorem var_remove_others (ops : List Op) :
       simp only [varRemoveFrom, List.getElem?_cons_succ, List.getElem_cons_succ]
       exact ih _ j (by simpa using h) hv
 
+/-! ## Arbitrary bytes, continued: values and widths -/
+
+/-- Whatever `de` returns from a byte string is a value of the Rust field types (so it is in the
+domain of `de_ser`), the unread tail is again a byte string, and an `EndPostamble` has absorbed
+every 223 byte after it. -/
+theorem de_returns_values (b : List Nat) (hb : bytesOK b) (op : Op) (rest : List Nat)
+    (h : de b = .ok (some (op, rest))) : op.WF ∧ bytesOK rest ∧ okBefore op rest :=
+  let ⟨h1, h2, h3, _⟩ := de_good hb h
+  ⟨h1, h2, h3⟩
+
+/-- **Minimal-width encodings**: for every encoding of an operation that the reader accepts
+(1-, 2-, 3- or 4-byte operand forms, long forms of small characters and fonts), the writer's
+encoding of that operation is at most as long. -/
+theorem ser_minimal_width (b : List Nat) (hb : bytesOK b) (op : Op) (rest : List Nat)
+    (h : de b = .ok (some (op, rest))) : (ser op).length + rest.length ≤ b.length :=
+  (de_good hb h).2.2.2
+
+/-! ## The `normalize` pipeline on bytes -/
+
+/-- **`dvitools normalize`, end to end.** Take any byte string; let `ops` be what the
+`Deserializer` iterator reads from it (up to the first error, if any). If no `EndPostamble` in
+`ops` is directly followed by `EnableFont 52` (finding C16-a: that pair cannot be written back),
+then the bytes written by `serialize(VarRemover(ops))` deserialise — completely and without
+error — to exactly `VarRemover(ops)`, which contains no w/x/y/z operation and places every
+character and rule where `ops` placed it, in the same font. -/
+theorem normalize_bytes (b : List Nat) (hb : bytesOK b) (ops : List Op) (e : Option Err)
+    (hd : deserialize b = (ops, e)) (h52 : Post52Free ops) :
+    deserialize (serAll (varRemove ops)) = (varRemove ops, none)
+      ∧ positions (varRemove ops) = positions ops
+      ∧ (∀ op ∈ varRemove ops, op.isVar = false) := by
+  have hwf : AllWF ops := deAll_allWF _ b ops e hb hd
+  have hwf' : AllWF (varRemove ops) := varRemoveFrom_allWF ops {} Values.fits_init hwf
+  have hp' : Post52Free (varRemove ops) := varRemoveFrom_post52Free ops {} h52
+  exact ⟨de_ser_seq _ (seqWF_of _ hwf' hp'), var_remove_positions ops, var_remove_no_vars ops⟩
+
+/-- Normalising twice is normalising once (operation level and, under the hypothesis of
+`normalize_bytes`, byte level). -/
+theorem normalize_idempotent (ops : List Op) : varRemove (varRemove ops) = varRemove ops :=
+  varRemoveFrom_noVars _ _ (var_remove_no_vars ops)
+
 /-! ## Non-vacuity: the hypotheses are met by concrete, non-trivial instances -/
 
 example : SeqWF [.preamble 2 25400000 473628672 1000 [84, 101, 88], .beginPage [1,0,0,0,0,0,0,0,0,0] (-1),
@@ -341,5 +386,21 @@ example : deserialize (serAll [.endPostamble 2 0 0, .enableFont 52]) = ([.endPos
 example : positions (varRemove [.setVar .W 5, .push, .setVar .Y 3, .typesetChar 65 true, .pop, .move .W,
     .typesetChar 66 false]) = positions [.setVar .W 5, .push, .setVar .Y 3, .typesetChar 65 true, .pop, .move .W,
     .typesetChar 66 false] := by decide
+
+
+def exampleBytes : List Nat :=
+  [247, 2, 0, 0, 0, 1, 0, 0, 0, 1, 0, 0, 3, 232, 0,
+   139, 0,0,0,1, 0,0,0,0, 0,0,0,0, 0,0,0,0, 0,0,0,0, 0,0,0,0, 0,0,0,0, 0,0,0,0, 0,0,0,0, 0,0,0,0, 255,255,255,255,
+   141, 149, 0, 5, 128, 65, 147, 235, 52, 137, 0,0,0,1, 0,0,0,2,
+   139, 0,0,0,2, 0,0,0,0, 0,0,0,0, 0,0,0,0, 0,0,0,0, 0,0,0,0, 0,0,0,0, 0,0,0,0, 0,0,0,0, 0,0,0,0, 0,0,0,15,
+   142, 152, 66, 140, 249, 2, 0,0,0,0, 223, 223, 223, 223]
+
+/-- `normalize_bytes` on a concrete stream with non-minimal encodings, variables, an unbalanced
+push across a page start and trailing padding: the hypotheses hold, and the output differs from
+the input bytes. -/
+example : bytesOK exampleBytes ∧ (deserialize exampleBytes).2 = none ∧
+    Post52Free (deserialize exampleBytes).1 ∧
+    serAll (varRemove (deserialize exampleBytes).1) ≠ exampleBytes := by
+  decide +kernel
 
 end C16
